@@ -101,6 +101,10 @@ func modRender(tc *modCase, oneLine bool) *scRender {
 					emit(tv(it.X), ".", mo, " = function(p) return p end")
 				case "field":
 					emit(tv(it.X), ".", mo, " = 1")
+				case "deep":
+					emit("function ", tv(it.X), ".", occ{Slot: "sub", Name: "sub", Role: "mdef", Kind: "sub", B: it.H}, ".", mo, "(p) return p end")
+				case "deepfield":
+					emit(tv(it.X), ".", occ{Slot: "sub", Name: "sub", Role: "mdef", Kind: "sub", B: it.H}, ".", mo, " = 1")
 				}
 			case "muse":
 				mo := occ{Slot: "mn", Name: it.M, Role: "muse", Kind: it.St, B: it.H}
@@ -114,6 +118,8 @@ func modRender(tc *modCase, oneLine bool) *scRender {
 					emit(tv(it.X), ".", mo, "(1)")
 				case "mcall":
 					emit(tv(it.X), ":", mo, "(1)")
+				case "deepread":
+					emit("print(", tv(it.X), ".", occ{Slot: "sub", Name: "sub", Role: "muse", Kind: "sub", B: it.H}, ".", mo, ")")
 				case "self":
 					emit("function ", tv(it.X), ":zz(p) return self.", mo, " end")
 				case "selfnest":
@@ -293,7 +299,7 @@ func modJudgeRanges(c *Ctx, j *Job, res *proto.Result) {
 // modulesRuns is the generation plan of the Modules.tla families: every workspace of two files up to the item bound, and
 // simulated larger workspaces over three files.
 // modOneGlobal: Modules.tla constant OneGlobal for the current family.
-var modOneGlobal = "FALSE"
+var modOneGlobal = "TRUE"
 
 func modulesRuns(c *Ctx, p *pool.Pool, build func(id int, raw json.RawMessage) *Job, judge func(j *Job, r *proto.Result)) bool {
 	items := 3
@@ -310,7 +316,7 @@ func modulesRuns(c *Ctx, p *pool.Pool, build func(id int, raw json.RawMessage) *
 		Cfg: cfg(2, items, 3, 2, "TypeOK RetLast TabsFresh Emit")}, p, 8, build, judge) {
 		return false
 	}
-	num, depth := 2000, 9
+	num, depth := 4000, 9
 	if c.Thorough() {
 		num, depth = 40000, 12
 	}
